@@ -166,6 +166,11 @@ func refImport(ctx context.Context, top *tnode, wrap bool, p importParams) (root
 		return cid.Undef, nil, nil, err
 	}
 	ri := &refImporter{ctx: ctx, ds: newMapDAG(), p: p, b: b}
+	// the standard importer works inside an MFS root, an empty directory made with the same CID builder
+	// (a builder that cannot make dag-pb CIDs, CIDv0 with another hash than sha2-256, fails right there)
+	mfsRoot := unixfs.EmptyDirNode()
+	mfsRoot.SetCidBuilder(b)
+	_ = mfsRoot.Cid()
 	what = top
 	if !wrap {
 		if len(top.kids) != 1 {
